@@ -41,25 +41,98 @@ def _import_engine(name):
     return importlib.import_module('engines.' + name)
 
 
-def _work(engine_name, verif_seed, indices, tier, chunk_timeout):
-    """Worker: run a chunk of run indices; return compact per-run summaries."""
-    faulthandler.dump_traceback_later(chunk_timeout, exit=True)
-    try:
-        eng = _import_engine(engine_name)
-        out = []
-        for i in indices:
-            t1 = time.time()
+class ForkError(Exception):
+    pass
+
+
+def fork_call(fn, timeout=600.0):
+    """Run fn() in a freshly forked child and return its (pickled) result.
+
+    Every execution of the system under test -- exploration run, minimiser candidate, self-test
+    re-execution -- happens in such a child, forked from a process that has itself never executed
+    sourcer code beyond importing it (or beyond preparing the universe).  Whatever state a run
+    leaves in the library (module-level caches of sourcer, `re`, lru_caches ...) therefore cannot
+    reach another run: one seed and one index are one exactly repeatable execution."""
+    import pickle
+    import select
+    r, w = os.pipe()
+    pid = os.fork()
+    if pid == 0:
+        code = 0
+        try:
+            os.close(r)
+            # self-destruct (faulthandler's watchdog thread does not survive fork and deadlocks on re-arm)
+            import signal
+            signal.signal(signal.SIGALRM, signal.SIG_DFL)
+            signal.alarm(int(timeout) + 30)
             try:
-                r = eng.run_one(verif_seed, i, tier)
-            except Exception:
-                out.append({'index': i, 'harness': traceback.format_exc()[-1500:]})
-                continue
+                payload = ('ok', fn())
+            except BaseException:
+                payload = ('exc', traceback.format_exc()[-3000:])
+            data = pickle.dumps(payload, protocol=pickle.HIGHEST_PROTOCOL)
+            with os.fdopen(w, 'wb') as f:
+                f.write(data)
+        except BaseException:
+            code = 1
+        finally:
+            os._exit(code)
+    os.close(w)
+    chunks = []
+    deadline = time.time() + timeout
+    try:
+        while True:
+            left = deadline - time.time()
+            if left <= 0:
+                os.kill(pid, 9)
+                os.waitpid(pid, 0)
+                raise ForkError('child exceeded %.0fs wall' % timeout)
+            ready, _, _ = select.select([r], [], [], min(left, 5.0))
+            if ready:
+                b = os.read(r, 1 << 20)
+                if not b:
+                    break
+                chunks.append(b)
+    finally:
+        os.close(r)
+    _, status = os.waitpid(pid, 0)
+    data = b''.join(chunks)
+    if not data:
+        raise ForkError('child died without a result (wait status %d)' % status)
+    kind, val = pickle.loads(data)
+    if kind == 'exc':
+        raise ForkError('child raised:\n' + val)
+    return val
+
+
+def run_group(engine_name, verif_seed, indices, tier):
+    """One universe group: prepare the universe-level caches once, then one forked child per run."""
+    eng = _import_engine(engine_name)
+    if hasattr(eng, 'prepare') and indices:
+        try:
+            eng.prepare(verif_seed, indices[0])
+        except Exception:
+            pass
+    out = []
+    for i in indices:
+        def one(i=i):
+            t1 = time.time()
+            r = eng.run_one(verif_seed, i, tier)
             s = eng.summarise(r)
             s['wall'] = round(time.time() - t1, 3)
-            out.append(s)
-        return out
-    finally:
-        faulthandler.cancel_dump_traceback_later()
+            return s
+        try:
+            out.append(fork_call(one, timeout=300))
+        except ForkError as e:
+            out.append({'index': i, 'harness': str(e)[-1500:]})
+    return out
+
+
+def _work(engine_name, verif_seed, indices, tier, chunk_timeout):
+    """Pool worker: stays pristine; each universe group runs in a child forked from it."""
+    try:
+        return fork_call(lambda: run_group(engine_name, verif_seed, indices, tier), timeout=chunk_timeout)
+    except ForkError as e:
+        return [{'index': indices[0], 'harness': 'group %s: %s' % (indices[:1], str(e)[-1200:])}]
 
 
 def load_known():
@@ -106,11 +179,12 @@ def main(engine_name, argv=None):
     if args.digests:
         _limit_worker()
         for i in [int(x) for x in args.digests.split(',') if x]:
-            r = eng.run_one(verif_seed, i, args.tier)
-            print('DIGEST %d %s' % (i, r.get('log_digest')), flush=True)
+            s = _work(engine_name, verif_seed, [i], args.tier, 600)[0]
+            print('DIGEST %d %s' % (i, s.get('log_digest')), flush=True)
         return 0
 
     cfg = dict(TIERS[args.tier])
+    chunk = getattr(eng, 'RUNS_PER_UNIVERSE', CHUNK)
     if args.wall:
         cfg['wall'] = args.wall
     if args.runs:
@@ -128,7 +202,7 @@ def main(engine_name, argv=None):
 
         def submit():
             nonlocal next_index
-            n = min(CHUNK, args.start + cfg['max_runs'] - next_index)
+            n = min(chunk - next_index % chunk, args.start + cfg['max_runs'] - next_index)
             if n <= 0:
                 return False
             idx = list(range(next_index, next_index + n))
@@ -237,9 +311,9 @@ def determinism_selftest(engine_name, eng, verif_seed, agg, n, tier):
     bad = []
     _limit_worker()
     for i in idx:
-        r = eng.run_one(verif_seed, i, tier)
+        r = _work(engine_name, verif_seed, [i], tier, 600)[0]
         if r.get('log_digest') != digests[i]:
-            bad.append(['same-process', i, digests[i], r.get('log_digest')])
+            bad.append(['re-execution', i, digests[i], r.get('log_digest')])
     fresh = 0
     if idx:
         p = _fresh([sys.executable, os.path.join(VERIF, 'check'), eng.PROP, '--tier', tier,
